@@ -533,12 +533,14 @@ func allZero(b []byte) bool {
 // runHistory executes ops on a fresh pool.  Handles are taken modulo the pool size (so that shrunk
 // histories stay executable); operations on an empty pool are skipped.
 type exec struct {
-	res  runResult
-	P    prims
-	pool []*slot
-	deep bool
-	step int
-	ext  []*extBufs // caller-owned buffers handed to NewExtendedKey
+	res    runResult
+	P      prims
+	pool   []*slot
+	deep   bool
+	sparse bool // observe only after every fourth step and after the last one (nothing forces lazily computed state in between)
+	last   int
+	step   int
+	ext    []*extBufs // caller-owned buffers handed to NewExtendedKey
 }
 
 // extBufs: the four buffers the caller gave to NewExtendedKey and what they contained
@@ -548,8 +550,10 @@ type extBufs struct {
 	ver0, key0, cc0, fp0 []byte
 }
 
+var sparseMode bool // set around the runs of the "sparse" family (and by a replay that says so)
+
 func newExec(withOracle, deep bool) *exec {
-	e := &exec{deep: deep, step: -1}
+	e := &exec{deep: deep, step: -1, sparse: sparseMode, last: -1}
 	if withOracle {
 		e.res.orc = newOracle()
 	}
@@ -795,9 +799,13 @@ func (ex *exec) apply(o opRec) {
 		got.n = 0 // unspecified class
 	}
 	ex.res.outs = append(ex.res.outs, got)
-	snap, v := observeAll(ex.pool, ex.step, ex.deep)
-	setViol(v)
-	ex.res.snaps = append(ex.res.snaps, snap)
+	if ex.sparse && ex.step%4 != 3 && ex.step != ex.last {
+		ex.res.snaps = append(ex.res.snaps, nil)
+	} else {
+		snap, v := observeAll(ex.pool, ex.step, ex.deep)
+		setViol(v)
+		ex.res.snaps = append(ex.res.snaps, snap)
+	}
 	ex.checkCallerBuffers(setViol)
 	if what, ok := globalsIntact(); !ok {
 		setViol(&violation{"C15:independence", "an operation wrote through a version slice into package-level state shared by all keys",
@@ -824,6 +832,7 @@ func (e *exec) checkCallerBuffers(setViol func(*violation)) {
 
 func runHistory(ops []opRec, withOracle bool, deep bool) runResult {
 	e := newExec(withOracle, deep)
+	e.last = len(ops) - 1
 	for _, o := range ops {
 		e.apply(o)
 	}
@@ -868,7 +877,7 @@ func report(ops []opRec, v *violation, deep bool) {
 	for _, o := range small {
 		hist = append(hist, o.text())
 	}
-	info := map[string]interface{}{"history": hist, "ops": small, "shallow": !deep,
+	info := map[string]interface{}{"history": hist, "ops": small, "shallow": !deep, "sparse": sparseMode,
 		"observed_after_every_step": "on every live key: String, IsPrivate, Depth, ParentFingerprint, ECPubKey, Address, Child(1), Child(2^31+1) if private (these memoise the public key of private keys)"}
 	if !deep {
 		info["observed_after_every_step"] = "on every live key: String, IsPrivate, Depth, ParentFingerprint only (none of these memoises the public key, so keys without a cached public key stay that way)"
@@ -933,6 +942,7 @@ func genCreator(r *vh.RNG) opRec {
 // Zero of public keys; operations on zeroed keys.
 func genHistory(r *vh.RNG, steps, maxPool int, withOracle bool, deep bool) ([]opRec, runResult) {
 	e := newExec(withOracle, deep)
+	e.last = steps - 1
 	var ops []opRec
 	lastCreated := -1
 	for len(ops) < steps {
@@ -1088,9 +1098,11 @@ func main() {
 			Input struct {
 				Ops     []opRec `json:"ops"`
 				Shallow bool    `json:"shallow"`
+				Sparse  bool    `json:"sparse"`
 			} `json:"input"`
 		}
 		vh.Must(json.Unmarshal(raw, &rp))
+		sparseMode = rp.Input.Sparse
 		if r := runHistory(rp.Input.Ops, false, !rp.Input.Shallow); r.viol != nil {
 			report(rp.Input.Ops, r.viol, !rp.Input.Shallow)
 		}
@@ -1104,6 +1116,9 @@ func main() {
 	for _, h := range fixedHistories() {
 		runAndRecord(h, "fixed", !cfg.Search, true)
 		runAndRecord(h, "fixed_shallow", false, false)
+		sparseMode = true // observed only after every fourth step and at the end: nothing forces lazily computed state
+		runAndRecord(h, "fixed_sparse", false, true)
+		sparseMode = false
 	}
 	r := rng.Fork("histories")
 	nCorr := cfg.Scale(40, 120)
@@ -1123,8 +1138,12 @@ func main() {
 		if !deep {
 			fam = "random_shallow"
 		}
+		if !corr && i%6 == 1 {
+			fam, sparseMode = "random_sparse", true
+		}
 		ops, res := genHistory(r, steps, maxPool, corr, deep)
 		record(ops, res, fam, corr, deep)
+		sparseMode = false
 	}
 	rep.Extra["histories"] = histCount
 	rep.Cases = cases.Len()
